@@ -1,6 +1,6 @@
 package main
 
-// Engine "maint" (oracle only, serves C01 / C19): a real Server running TableMaintainer (bootstrap
+// Engine "maint" (hostile-reply cases: oracle only, serve C01 / C19; pass cases, maint_pass.go: model-compared `mpass` lines): a real Server running TableMaintainer (bootstrap
 // traversal, questionable-node pings, bucket refresh traversals) against simulated remote nodes
 // that answer the node's own queries with hostile replies. There is no model of the maintainer;
 // the engine checks the property directly: the process survives (child containment), the node
@@ -9,6 +9,7 @@ package main
 import (
 	"fmt"
 	"net"
+	"os"
 	"runtime"
 	"strconv"
 	"time"
@@ -129,12 +130,25 @@ func maintEngine(seed uint64, tier string, args []string) {
 	if tier == "thorough" {
 		n = len(maintStrategies) * 12
 	}
+	if p := os.Getenv("VERIF_PROP"); (p == "C06" || p == "C14") && from < n {
+		from = n // these checks run the pass cases only
+	}
+	np := maintPassCount(tier) // model-compared passes of the maintainer (maint_pass.go) follow the hostile-reply cases
 	if !child {
-		runContained("maint", seed, tier, n, func(idx int) string { return maintStrategies[idx%len(maintStrategies)] })
+		runContained("maint", seed, tier, n+np, func(idx int) string {
+			if idx >= n {
+				return "pass"
+			}
+			return maintStrategies[idx%len(maintStrategies)]
+		})
 		return
 	}
-	for i := from; i < n; i++ {
-		runMaintCase(seed, i)
+	for i := from; i < n+np; i++ {
+		if i >= n {
+			runMaintPassCase(seed, i-n, i)
+		} else {
+			runMaintCase(seed, i)
+		}
 	}
 }
 
